@@ -73,7 +73,7 @@ Proof.
         assert (Hfl: flagP evl' en' sd k) by (left; rewrite Hsame; unfold x'; cbn [w_chg s_chg]; exact Hts).
         constructor; rewrite ?Hsame, ?Hoth, ?Hign; unfold x'; cbn [w_chg w_ex s_ex s_path s_spath s_hash s_shash s_oid s_chg].
         -- unfold ev_ex. destruct (s_ex (gs en sd)), b; simpl; intros Ht; try discriminate; auto.
-        -- right. left. rewrite Hx. lia.
+        -- intros _. right. left. rewrite Hx. lia.
         -- exact f3.
         -- exact f4.
         -- exact f5.
@@ -100,7 +100,7 @@ Proof.
       rewrite negb_inv in f6, f7, f8, f10, f9.
       constructor; rewrite ?Hoth, ?Hign, ?negb_inv, ?Hsame; unfold x'; cbn [w_chg w_ex s_ex s_path s_spath s_hash s_shash s_oid s_chg].
       * exact f1.
-      * destruct f2 as [X|[X|X]]; [left; auto|right; left; rewrite Hx; lia|right; right; exact X].
+      * intros Hd. destruct (f2 Hd) as [X|[X|X]]; [left; auto|right; left; rewrite Hx; lia|right; right; exact X].
       * exact f3.
       * exact f4.
       * exact f5.
